@@ -76,6 +76,9 @@ def generate(r, tier):
     for st in steps:
         st["dirs"] = [0] if sc["ndirs"] == 1 else r.choice([[0], [1], [0, 1], [1, 0], [0, 1]])
     sc["reuse"] = r.random() < 0.5
+    # fault-free histories may run the sync the way the build system does: `kconfgen --output cdep_tree <dir>` (all
+    # directories of a step in one kconfgen run, the configuration handed over in a defaults file)
+    sc["via"] = "kconfgen" if r.random() < 0.3 else "lib"
     sc["crash_step"] = r.randrange(0, len(steps)) if r.random() < 0.75 else None
     sc["rerun_same"] = r.random() < 0.4  # insert a rerun on the unchanged configuration right after the crashed sync
     sc["torn"] = [0.0] + [round(r.random(), 3) for _ in range(r.choice([1, 1, 2]))]
@@ -212,10 +215,38 @@ def execute(sc, ctx):
     class SyncRaised(Exception):
         pass
 
-    def sync(k, d):
+    via_kconfgen = sc.get("via") == "kconfgen" and sc["crash_step"] is None and not reuse
+    if via_kconfgen:
+        import kconfgen.core as kg
+
+        ctx.counters["probe:sync-through-kconfgen"] += 1
+        alltab = dict(kgen.sym_table(sc["prog2"])) if sc.get("prog2") else {}
+        alltab.update(kgen.sym_table(sc["prog"]))
+
+    def kconfgen_sync(idx, d):
+        st = steps[idx][1]
+        dfl = os.path.join(sb, "sdkconfig.defaults.%d" % idx)
+        with builtins.open(dfl, "w", encoding="utf-8") as f:
+            f.write("".join(kgen.assign_line(nm, alltab[nm]["type"], v) for nm, v in cums[idx] if nm in alltab))
+        args = ["--kconfig", kpaths[min(st["ver"], len(kpaths) - 1)], "--defaults", dfl, "--env", "IDF_TARGET=esp32", "--env", "IDF_VERSION=v9.9",
+                "--env", "KCONFIG_REPORT_VERBOSITY=quiet", "--env", "KCONFIG_PARSER_VERSION=%d" % sc["parser"], "--output", "cdep_tree", dpaths[d]]
+        if rn:
+            args += ["--sdkconfig-rename", rn]
+        simproc.fresh_report()
+        simproc.next_process()
         try:
-            with simfs.Installed(fs, mods, copyfile=False), simproc.quiet():
-                k.sync_deps(dpaths[d])
+            kg.main.main(args=args, standalone_mode=False)
+        finally:
+            simproc.scrub_env()
+
+    def sync(k, d, idx=None):
+        try:
+            with simfs.Installed(fs, mods + ([kg] if via_kconfgen else []), copyfile=False,
+                                 tempdir=os.path.join(sb, "tmp") if via_kconfgen else None), simproc.quiet():
+                if via_kconfgen and idx is not None:
+                    kconfgen_sync(idx, d)
+                else:
+                    k.sync_deps(dpaths[d])
         except SimCrash:
             raise
         except Exception as e:  # noqa: B902
@@ -275,10 +306,11 @@ def execute(sc, ctx):
             t1 = fs.tick
             fs.arm()
             try:
-                sync(k, d)
+                sync(k, d, idx)
             except SyncRaised:
                 pass
-            extra = fs.ops_since(t1)
+            # (kconfgen's own scratch files are not part of the dependency directory)
+            extra = [e for e in fs.ops_since(t1) if e[2].startswith(DIRNAMES[d] + os.sep)]
             ctx.events += fs.opcount
             if extra:
                 ctx.violate("C12/not-idempotent" + dtag, f"repeated sync performed {[(e[1], e[2]) for e in extra][:6]}")
@@ -299,7 +331,7 @@ def execute(sc, ctx):
             for d in step_dirs(idx):
                 t0 = fs.tick
                 try:
-                    sync(k, d)
+                    sync(k, d, idx)
                 except SimCrash:
                     crashed = True
                 except SyncRaised:
